@@ -36,16 +36,16 @@ pub fn passes(tier: &str) -> Vec<Pass> {
     let d = Cfg::default2();
     let q = tier == "quick";
     let mut v = vec![
-        mk("empty-start/1-reopen", d.clone(), "", 1, if q { 3 } else { 4 }, 2, if q { 12.0 } else { 300.0 }),
-        mk("empty-start/2-reopens", d.clone(), "", 2, if q { 2 } else { 3 }, 2, if q { 5.0 } else { 200.0 }),
-        mk("last-level+L0+memtable", d.clone(), "l6_l0_mem", 1, if q { 2 } else { 3 }, 1, if q { 5.0 } else { 200.0 }),
-        mk("tombstone-over-value", d.clone(), "tomb_over_value", 2, if q { 2 } else { 3 }, 1, if q { 5.0 } else { 200.0 }),
-        mk("two-sealed-journals", d.clone(), "two_sealed_journals", 1, if q { 2 } else { 3 }, 1, if q { 5.0 } else { 200.0 }),
-        mk("meta-keyspace-highest", d.clone(), "meta_highest", 3, if q { 1 } else { 3 }, 1, if q { 4.0 } else { 200.0 }),
+        mk("empty-start/1-reopen", d.clone(), "", 1, if q { 3 } else { 5 }, 2, if q { 12.0 } else { 600.0 }),
+        mk("empty-start/2-reopens", d.clone(), "", 2, if q { 2 } else { 4 }, 2, if q { 5.0 } else { 300.0 }),
+        mk("last-level+L0+memtable", d.clone(), "l6_l0_mem", 1, if q { 2 } else { 4 }, 1, if q { 5.0 } else { 300.0 }),
+        mk("tombstone-over-value", d.clone(), "tomb_over_value", 2, if q { 2 } else { 4 }, 1, if q { 5.0 } else { 300.0 }),
+        mk("two-sealed-journals", d.clone(), "two_sealed_journals", 1, if q { 2 } else { 4 }, 1, if q { 5.0 } else { 300.0 }),
+        mk("meta-keyspace-highest", d.clone(), "meta_highest", 3, if q { 1 } else { 5 }, 1, if q { 4.0 } else { 300.0 }),
     ];
     if !q {
-        v.push(mk("blob", Cfg { blob: true, ..d.clone() }, "blob_overwritten", 2, 3, 2, 200.0));
-        v.push(mk("tiny", Cfg { tiny: true, ..d.clone() }, "", 2, 3, 2, 200.0));
+        v.push(mk("blob", Cfg { blob: true, ..d.clone() }, "blob_overwritten", 2, 4, 2, 300.0));
+        v.push(mk("tiny", Cfg { tiny: true, ..d.clone() }, "", 2, 4, 2, 300.0));
     }
     v
 }
